@@ -106,7 +106,8 @@ func (o Options) Len() int {
 	length := 0
 
 	for _, v := range o {
-		length += 2 + 2 + len(v.value)
+		// what Serialize emits for the option: header plus the octets its 16-bit length field announces
+		length += 2 + 2 + v.Len()
 	}
 
 	return length
